@@ -17,7 +17,7 @@ from symx import alg
 from harness import pipeline as pl, plugin_util as pu
 from oracles import rs274
 
-ROLES_E = ["RET", "REC", "PRINT", "TRAVEL", "ZHOP", "SETE", "G20", "G21", "TRAVELX", "TRAVELE"]
+ROLES_E = ["RET", "REC", "PRINT", "TRAVEL", "ZHOP", "SETE", "G20", "G21", "TRAVELX", "TRAVELE", "HOME"]
 ROLES_FW = ["FRET", "FREC", "FRET1", "FREC1", "PRINT", "TRAVEL", "SETE", "G20", "TRAVELX"]
 
 KF_OWED_MOVE = "owed_recovery_before_move_with_xyz"
@@ -83,6 +83,10 @@ def scen(w, which="C04", K=4, firmware=0, kinds="r", roles=None, sequence=None):
             text = "G1 Z%s" % w.key(w.real("c%d_Z" % pipe.k))
         elif role == "SETE":
             text = "G92 E%s" % w.key(w.real("c%d_E" % pipe.k))
+        elif role == "HOME":
+            if pipe.state.excluding:
+                pl.skip(w, "homing inside an episode (outside the claims)")
+            text = "G28"
         elif role in ("ATOFF", "ATON", "DELREGION"):
             # pseudo steps: @-commands through the @-command hook, region deletion through the API path
             pipe.program.append("<%s>" % role)
@@ -213,7 +217,7 @@ def scen(w, which="C04", K=4, firmware=0, kinds="r", roles=None, sequence=None):
 # in each class either outside an episode (then P's E register equals V's) or inside one (P's E register arbitrary);
 # tracked frame == V's frame as in harness/inductive.py; deepest retraction requested so far is a (classes 1, 2) or
 # 0 / a (class 0).
-IND_ROLES = ["RET", "REC", "PRINT", "TRAVEL", "TRAVELE", "ZHOP", "SETE", "G20", "G21", "TRAVELX"]
+IND_ROLES = ["RET", "REC", "PRINT", "TRAVEL", "TRAVELE", "ZHOP", "SETE", "G20", "G21", "TRAVELX", "HOME"]
 
 
 def ind_step(w, which="C04", start="outside", kinds="r"):
@@ -274,6 +278,10 @@ def ind_step(w, which="C04", start="outside", kinds="r"):
         text = "G1 Z%s" % w.key(w.real("c0_Z"))
     elif role == "SETE":
         text = "G92 E%s" % w.key(w.real("c0_E"))
+    elif role == "HOME":
+        if start == "inside":
+            pl.skip(w, "homing inside an episode (outside the claims)")
+        text = "G28"
     else:
         text = role
     rec = pipe.begin(text)
